@@ -407,6 +407,9 @@ pub async fn apply(w: &mut World, a: &Action, info: &mut RunInfo) -> Result<(), 
             for i in nodes_in(w, *mask) {
                 if w.ready(i) {
                     w.timer(i).await;
+                } else if w.node(i).is_up() && w.node(i).is_busy() {
+                    // a handler that is waiting (e.g. for a missing block, bounded by the view timeout) sees time pass too
+                    w.advance(i, w.cfg.view_timeout_ms as i64 + 1).await;
                 }
             }
             w.progress().await;
